@@ -574,8 +574,19 @@ fn opt_idx(s: &str) -> Option<Option<usize>> {
     if s == "-" {
         Some(None)
     } else {
-        Some(Some(parse_hex(s)? as usize))
+        let v = parse_hex(s)?;
+        if v >= 1 << 16 {
+            return None;
+        }
+        Some(Some(v as usize))
     }
+}
+
+/// are the model types with `Probability::BITS = b` compiled in for coder precision `p`?
+fn compiled_bp(w: u32, s: u32, b: u128, p: u32) -> bool {
+    combos()
+        .iter()
+        .any(|(cw, cs, bps)| *cw == w && *cs == s && bps.iter().any(|(cb, ps)| *cb as u128 == b && ps.contains(&p)))
 }
 
 /// what `undo` re-does (see the Lean driver)
@@ -600,8 +611,22 @@ fn undo_one<C: ChainPrec>(d: &mut Dyn<C::W, C::S>, ghost: &mut Vec<Ghost>) -> St
 
 fn run_hist<C: ChainPrec>(segs: &[Vec<&str>], p0: u32) -> String {
     let init = &segs[1];
-    let ctor = |kind: u32, ws: &str| -> Option<Option<Result<Dyn<C::W, C::S>, ()>>> {
+    if !C::precisions().contains(&p0) {
+        return "unsupported".into();
+    }
+    let wmax = pow2(C::WBITS); // W <= 64
+    let fits_s = |x: u128| C::SBITS >= 128 || x < pow2(C::SBITS);
+    // protocol values must fit the Rust types they are parsed into (`bad-op` otherwise)
+    let word_list = |ws: &str| -> Option<Vec<u128>> {
         let l = parse_list(ws)?;
+        if l.iter().all(|&w| w < wmax) {
+            Some(l)
+        } else {
+            None
+        }
+    };
+    let ctor = |kind: u32, ws: &str| -> Option<Option<Result<Dyn<C::W, C::S>, ()>>> {
+        let l = word_list(ws)?;
         Some(C::ctor(kind, p0, words::<C::W>(&l)))
     };
     let made = match init.as_slice() {
@@ -609,12 +634,12 @@ fn run_hist<C: ChainPrec>(segs: &[Vec<&str>], p0: u32) -> String {
         ["compressed", ws] => ctor(1, ws),
         ["remainders", ws] => ctor(2, ws),
         ["raw", comp, rems, hc, hr] => (|| {
-            let comp = parse_list(comp)?;
-            let rems = parse_list(rems)?;
+            let comp = word_list(comp)?;
+            let rems = word_list(rems)?;
             let hc = parse_hex(hc)?;
             let hr = parse_hex(hr)?;
-            if !C::precisions().contains(&p0) {
-                return Some(None);
+            if hc >= wmax || !fits_s(hr) {
+                return None;
             }
             if hc == 0 {
                 return Some(Some(Err(())));
@@ -644,9 +669,7 @@ fn run_hist<C: ChainPrec>(segs: &[Vec<&str>], p0: u32) -> String {
         let r = guarded(|| -> Option<String> {
             let uns = || "unsupported".to_string();
             Some(match seg.as_slice() {
-                [op @ ("dec" | "enc" | "encnone" | "encsym" | "encs" | "decs"), p, ..]
-                    if parse_hex(p)? as u32 != d.p =>
-                {
+                [op @ ("dec" | "enc" | "encnone" | "encsym" | "encs" | "decs"), p, rest @ ..] => {
                     // arity check as in the Lean driver
                     let ar = match *op {
                         "dec" => 4,
@@ -659,16 +682,82 @@ fn run_hist<C: ChainPrec>(segs: &[Vec<&str>], p0: u32) -> String {
                     if seg.len() != ar {
                         return None;
                     }
-                    "skip".into()
-                }
-                ["dec", _, b, cdf] => {
-                    let b = parse_hex(b)? as u32;
-                    let cdf = parse_list(cdf)?;
-                    let o = C::dec(&mut d, b, &cdf).unwrap_or_else(uns);
-                    if let Some(s) = parse_hex(&o) {
-                        ghost.push(Ghost::Sym(d.p, b, cdf, s as usize));
+                    if parse_hex(p)? != d.p as u128 {
+                        return Some("skip".into());
                     }
-                    o
+                    let b128 = parse_hex(rest[0])?;
+                    if !compiled_bp(C::WBITS, C::SBITS, b128, d.p) {
+                        return Some(uns());
+                    }
+                    let b = b128 as u32;
+                    let bmax = pow2(b); // b <= 32
+                    let cdf_ok = |cdf: &[u128]| -> bool {
+                        cdf.iter().all(|&c| c <= bmax)
+                            && cdf.windows(2).all(|w| w[0] < bmax && w[1].saturating_sub(w[0]) < bmax)
+                    };
+                    match (*op, &rest[1..]) {
+                        ("dec", [cdf]) => {
+                            let cdf = parse_list(cdf)?;
+                            if !cdf_ok(&cdf) {
+                                return None;
+                            }
+                            let o = C::dec(&mut d, b, &cdf).unwrap_or_else(uns);
+                            if let Some(s) = parse_hex(&o) {
+                                ghost.push(Ghost::Sym(d.p, b, cdf, s as usize));
+                            }
+                            o
+                        }
+                        ("enc", [cum, pr]) => {
+                            let (cum, pr) = (parse_hex(cum)?, parse_hex(pr)?);
+                            if cum >= bmax || pr >= bmax {
+                                return None;
+                            }
+                            C::enc(&mut d, b, Some((cum, pr))).unwrap_or_else(uns)
+                        }
+                        ("encnone", []) => C::enc(&mut d, b, None).unwrap_or_else(uns),
+                        ("encsym", [cdf, s]) => {
+                            let cdf = parse_list(cdf)?;
+                            let s = parse_hex(s)?;
+                            if !cdf_ok(&cdf) || s >= 1u128 << 64 {
+                                return None;
+                            }
+                            C::enc_sym(&mut d, b, &cdf, s as usize).unwrap_or_else(uns)
+                        }
+                        ("encs", [form, cdf, syms, err_at]) => {
+                            let cdf = parse_list(cdf)?;
+                            let syms = parse_list(syms)?;
+                            let form = parse_hex(form)?;
+                            let err_at = opt_idx(err_at)?;
+                            if form > 5 {
+                                return None;
+                            }
+                            if !cdf_ok(&cdf) || syms.iter().any(|&s| s >= 1u128 << 64) {
+                                return None;
+                            }
+                            let syms: Vec<usize> = syms.iter().map(|&s| s as usize).collect();
+                            C::enc_batch(&mut d, b, form as u32, &cdf, &syms, err_at).unwrap_or_else(uns)
+                        }
+                        ("decs", [form, cdf, n, err_at]) => {
+                            let cdf = parse_list(cdf)?;
+                            let n = parse_hex(n)?;
+                            let form = parse_hex(form)?;
+                            let err_at = opt_idx(err_at)?;
+                            if form > 2 {
+                                return None;
+                            }
+                            if !cdf_ok(&cdf) || n >= 1 << 16 {
+                                return None;
+                            }
+                            let o = C::dec_batch(&mut d, b, form as u32, &cdf, n as usize, err_at).unwrap_or_else(uns);
+                            if let Some(syms) = o.split(' ').next().and_then(parse_list) {
+                                for s in syms {
+                                    ghost.push(Ghost::Sym(d.p, b, cdf.clone(), s as usize));
+                                }
+                            }
+                            o
+                        }
+                        _ => return None,
+                    }
                 }
                 ["undo"] => undo_one::<C>(&mut d, &mut ghost),
                 ["undoall"] => {
@@ -687,40 +776,12 @@ fn run_hist<C: ChainPrec>(segs: &[Vec<&str>], p0: u32) -> String {
                         }
                     }
                 }
-                ["enc", _, b, cum, pr] => {
-                    C::enc(&mut d, parse_hex(b)? as u32, Some((parse_hex(cum)?, parse_hex(pr)?))).unwrap_or_else(uns)
-                }
-                ["encnone", _, b] => C::enc(&mut d, parse_hex(b)? as u32, None).unwrap_or_else(uns),
-                ["encsym", _, b, cdf, s] => {
-                    C::enc_sym(&mut d, parse_hex(b)? as u32, &parse_list(cdf)?, parse_hex(s)? as usize).unwrap_or_else(uns)
-                }
-                ["encs", _, b, form, cdf, syms, err_at] => {
-                    let syms: Vec<usize> = parse_list(syms)?.iter().map(|&s| s as usize).collect();
-                    let form = parse_hex(form)? as u32;
-                    if form > 5 {
-                        return None;
-                    }
-                    C::enc_batch(&mut d, parse_hex(b)? as u32, form, &parse_list(cdf)?, &syms, opt_idx(err_at)?)
-                        .unwrap_or_else(uns)
-                }
-                ["decs", _, b, form, cdf, n, err_at] => {
-                    let form = parse_hex(form)? as u32;
-                    if form > 2 {
-                        return None;
-                    }
-                    let b = parse_hex(b)? as u32;
-                    let cdf = parse_list(cdf)?;
-                    let o = C::dec_batch(&mut d, b, form, &cdf, parse_hex(n)? as usize, opt_idx(err_at)?)
-                        .unwrap_or_else(uns);
-                    if let Some(syms) = o.split(' ').next().and_then(parse_list) {
-                        for s in syms {
-                            ghost.push(Ghost::Sym(d.p, b, cdf.clone(), s as usize));
-                        }
-                    }
-                    o
-                }
                 [op @ ("cp" | "incp" | "decp"), q] => {
-                    let q = parse_hex(q)? as u32;
+                    let q128 = parse_hex(q)?;
+                    if q128 > 255 {
+                        return Some(uns());
+                    }
+                    let q = q128 as u32;
                     let kind = match *op {
                         "cp" => 0,
                         "incp" => 1,
@@ -780,7 +841,11 @@ fn run_hist<C: ChainPrec>(segs: &[Vec<&str>], p0: u32) -> String {
                     }
                 }
                 ["seekto", i] => {
-                    let i = parse_hex(i)? as usize;
+                    let i128 = parse_hex(i)?;
+                    if i128 >= 1 << 32 {
+                        return Some(uns());
+                    }
+                    let i = i128 as usize;
                     match snaps.get(i) {
                         None => uns(),
                         Some(&(p, pc, pr, hc, hr)) => {
@@ -904,6 +969,18 @@ fn sweep(p: u32, b: u32, kind: &str, lo: u128, hi: u128) -> Option<(u64, u64)> {
     if !C::precisions().contains(&p) {
         return None;
     }
+    // the swept variable is a compressed head (`u8`, non-zero) or a remainders head (`u16`)
+    let over_hc = matches!(kind, "decbits" | "decbits0" | "encbits");
+    let top_v: u128 = if over_hc || kind == "import" { 0xff } else { 0xffff };
+    if hi > top_v || (over_hc && lo == 0) {
+        return None;
+    }
+    if kind == "cp" && !C::precisions().contains(&b) {
+        return None;
+    }
+    if kind != "cp" && !compiled_bp(W, S, b as u128, p) {
+        return None;
+    }
     match kind {
         "decbits" => {
             let cdf = [0, top / 2, top];
@@ -1014,6 +1091,9 @@ pub fn run(segs: &[Vec<&str>]) -> String {
         if (v[0], v[1]) != (8, 16) {
             return "unsupported".into();
         }
+        if v[2] > 255 || v[3] > 255 {
+            return "bad-op".into();
+        }
         return match sweep(v[2] as u32, v[3] as u32, head[5], v[4], v[5]) {
             Some((n, h)) => format!("{} {:x}", n, h),
             None => "bad-op".into(),
@@ -1023,7 +1103,7 @@ pub fn run(segs: &[Vec<&str>]) -> String {
         return "bad-op".into();
     }
     let (w, s, p) = match (parse_hex(head[1]), parse_hex(head[2]), parse_hex(head[3])) {
-        (Some(w), Some(s), Some(p)) => (w, s, p as u32),
+        (Some(w), Some(s), Some(p)) => (w, s, if p > 255 { 0 } else { p as u32 }),
         _ => return "bad-op".into(),
     };
     match (w, s) {
